@@ -81,6 +81,28 @@ class Check(ParCheck):
             if not ok:
                 path = engine.write_replay(self.prop, 'stress', text, ["uninstrumented 16-thread stress: counts or response multiset not conserved", line[:500]])
                 rep.violation(path, f"16-thread stress run lost or duplicated positions: {line[:200]}")
+        # the same count-conservation run against unimock built WITHOUT std (spin-lock + critical-section): the counters are the same code
+        import os
+        hb = os.path.join(engine.VERIF, 'harness_nostd')
+        if not os.path.exists(os.path.join(hb, 'Cargo.lock')):
+            import shutil; shutil.copy('/repo/Cargo.lock', os.path.join(hb, 'Cargo.lock'))
+        rc, o_, e_ = engine.sh(['cargo', 'build', '--offline', '--bin', 'sched'], cwd=hb)
+        if rc != 0:
+            path = engine.write_replay(self.prop, 'build', (o_ + e_)[-6000:], ["the scheduler harness no longer builds against /repo without the std feature"])
+            rep.violation(path, "no_std configuration of the scheduler harness does not build against /repo", no_input=True)
+        else:
+            realn, _ = run_real(text, 0, 0, seed, stress=reps, exe=os.path.join(hb, 'target', 'debug', 'sched'))
+            linen = next((l for l in realn['stress'] if l.startswith('stress ')), '')
+            mn = re.search(r'calls=(\d+) hist=(\S*) next=(\d+) counts=(.*?) reasons', linen)
+            info['nostd'] = linen[:200]
+            if mn:
+                callsn = int(mn.group(1))
+                countsn = re.findall(r'\[(\d+)\]', mn.group(4))
+                histn = dict(x.rsplit('x', 1) for x in mn.group(2).split(',') if x)
+                okn = sum(int(c) for c in countsn) == callsn and int(histn.get('ret:1', 0)) == 1000 and int(histn.get('ret:2', 0)) == callsn // 2 - 1000 and int(histn.get('ret:3', 0)) == callsn // 2
+                if not okn:
+                    path = engine.write_replay(self.prop, 'stress', text, ["unimock built without std (spin-lock + critical-section), uninstrumented 16-thread stress: counts or response multiset not conserved", linen[:500], f"replay: SCHED_STRESS={reps} /verif/harness_nostd/target/debug/sched < this file"])
+                    rep.violation(path, f"no_std build: 16-thread stress run lost or duplicated positions: {linen[:200]}")
         # the same through ONE shared &Unimock, each answer lending a value of its own via make_ref and reading it back
         tree2 = term(1, 'each', Pat(mask=255, chain=[seg('ans16', '-')]))
         text2 = par_scenario('stress', 'strict', tree2, [[(1, 0), (1, 1)]] * 16, True)
